@@ -24,8 +24,11 @@ def run(ck):
     r = ck.mc("BinnerRef", ref_cfg(False, 4), "negative control: without the discipline aliasing breaks refinement", expect_violation="Refines")
     ck.cat("negative_control_counterexample_found", 1 if r.violated else 0)
     # GEN: every history to depth 4 (quick) / 5, plus simulated deep walks
-    r = ck.mc("BinnerGen", gen_cfg([1, 2], [1, 2], 2, 4 if q else 5), "GEN all operation histories (exhaustive)")
+    r = ck.mc("BinnerGen", gen_cfg([1, 2], [1, 2], 2, 4), "GEN all operation histories to depth 4 (exhaustive)")
     hists = [e["ops"] for e in r.emitted]
+    if not q:    # depth 5 with a single item value (the number of histories grows 20-fold per operation)
+        r = ck.mc("BinnerGen", gen_cfg([1, 2], [1], 2, 5), "GEN all operation histories to depth 5, one item value (exhaustive)")
+        hists += [e["ops"] for e in r.emitted]
     ck.exhaustive = True
     ck.cat("exhaustive_histories", len(hists))
     r = ck.mc("BinnerGen", gen_cfg([1, 2, 3], [1, 2, 3, 100], 4, 12 if q else 20), "GEN simulated deep walks",
@@ -34,7 +37,7 @@ def run(ck):
     ck.cat("simulated_histories_emitted", len(deep))
     deep.sort(key=json_key)
     ck.rng.shuffle(deep)
-    deep = deep[:3000 if q else 80000]     # every candidate successor of a simulated walk is emitted; a seeded sample is replayed
+    deep = deep[:3000 if q else 30000]     # every candidate successor of a simulated walk is emitted; a seeded sample is replayed
     ck.cat("simulated_deep_histories", len(deep))
     stim = []
     for h in hists + deep:
